@@ -17,57 +17,148 @@ func NewFeature(key string, loc Location, props Props) Feature {
 	return Feature{key, loc, props}
 }
 
+// fragmentParts returns the parts of a location that may continue in another
+// fragment of the same feature and whether they form an Ordered location.
+func fragmentParts(loc Location) ([]Location, bool) {
+	switch v := loc.(type) {
+	case Joined:
+		return v, false
+	case Ordered:
+		return v, true
+	default:
+		return []Location{loc}, false
+	}
+}
+
+// mergeFragments joins location b to the end of location a if the two look
+// like consecutive fragments of one location: the last range of a is partial
+// at its 3' end, the first range of b is partial at its 5' end and both meet
+// at the same coordinate (any two abutting ranges if force is set), or a ends
+// and b starts with the zero-length site that a cut between two parts leaves.
+func mergeFragments(a, b Location, force bool) (Location, bool) {
+	ca, aok := a.(Complemented)
+	cb, bok := b.(Complemented)
+	if aok != bok {
+		return nil, false
+	}
+	if aok {
+		loc, ok := mergeFragments(ca.Location, cb.Location, force)
+		if !ok {
+			return nil, false
+		}
+		return Complemented{loc}, true
+	}
+
+	la, orda := fragmentParts(a)
+	lb, ordb := fragmentParts(b)
+	if len(la) > 1 && len(lb) > 1 && orda != ordb {
+		return nil, false
+	}
+	ordered := (len(la) > 1 && orda) || (len(lb) > 1 && ordb)
+
+	// Set aside the sites that a cut leaves at the end of a and the start of b.
+	// Every part that was cut off as a whole is one such site.
+	var sa, sb *Between
+	for len(la) > 1 {
+		site, ok := la[len(la)-1].(Between)
+		if !ok || (sa != nil && *sa != site) {
+			break
+		}
+		sa, la = &site, la[:len(la)-1]
+	}
+	for len(lb) > 1 {
+		site, ok := lb[0].(Between)
+		if !ok || (sb != nil && *sb != site) {
+			break
+		}
+		sb, lb = &site, lb[1:]
+	}
+
+	last, lok := la[len(la)-1].(Ranged)
+	first, fok := lb[0].(Ranged)
+	if !lok || !fok {
+		return nil, false
+	}
+
+	parts := make([]Location, 0, len(la)+len(lb))
+	switch {
+	case last.End == first.Start &&
+		(sa == nil || int(*sa) == last.End) && (sb == nil || int(*sb) == first.Start) &&
+		(force || (last.Partial.Partial3 && first.Partial.Partial5)):
+		partial := Partial{last.Partial.Partial5, first.Partial.Partial3}
+		parts = append(parts, la[:len(la)-1]...)
+		parts = append(parts, Ranged{last.Start, first.End, partial})
+		parts = append(parts, lb[1:]...)
+	case sa != nil && sb != nil && *sa <= *sb && last.End <= int(*sa) && int(*sb) <= first.Start:
+		parts = append(parts, la...)
+		parts = append(parts, lb...)
+	default:
+		return nil, false
+	}
+
+	switch {
+	case len(parts) == 1:
+		return parts[0], true
+	case ordered:
+		return Ordered(parts), true
+	default:
+		return Joined(parts), true
+	}
+}
+
 // Repair attempts to reconstruct features by joining features with identical
 // feature keys and values which have adjacent locations.
 func Repair(ff []Feature) []Feature {
 	gg := make([]Feature, len(ff))
 	copy(gg, ff)
 
-	// Identify the features with similar keys and values.
+	// Identify the features with identical keys and values.
 	index := make(map[string][]int)
+	classes := make([]string, 0)
 	for i, f := range gg {
 		key := fmt.Sprintf("%q:%q", f.Key, f.Props)
+		if _, ok := index[key]; !ok {
+			classes = append(classes, key)
+		}
 		index[key] = append(index[key], i)
 	}
 
-	keep := make([]int, 0, len(gg))
-	for _, indices := range index {
-		if len(indices) > 0 {
-			locs := make([]Location, len(indices))
-			for j, i := range indices {
-				locs[j] = gg[i].Loc
-			}
-			sort.Sort(Locations(locs))
+	drop := make([]bool, len(gg))
+	for _, key := range classes {
+		indices := index[key]
+		if len(indices) < 2 {
+			continue
+		}
 
-			force := ff[indices[0]].Key == "source"
-			list := LocationList{}
-			for _, loc := range locs {
-				list.Push(loc, force)
-			}
+		// Visit the members of the class in the order of their locations and
+		// join each one to its predecessor if it continues it.
+		members := make([]int, len(indices))
+		copy(members, indices)
+		sort.SliceStable(members, func(i, j int) bool {
+			return LocationLess(gg[members[i]].Loc, gg[members[j]].Loc)
+		})
 
-			// DISCUSS: Should we join these locations?
-			locs = list.Slice()
-
-			// Some locations were merged.
-			if len(locs) < len(indices) {
-				for i, loc := range locs {
-					gg[indices[i]].Loc = loc
-				}
+		force := gg[members[0]].Key == "source"
+		cur := members[0]
+		for _, next := range members[1:] {
+			if loc, ok := mergeFragments(gg[cur].Loc, gg[next].Loc, force); ok {
+				gg[cur].Loc = loc
+				drop[next] = true
+			} else {
+				cur = next
 			}
-			keep = append(keep, indices[:len(locs)]...)
 		}
 	}
 
-	sort.Sort(sort.IntSlice(keep))
-
 	i := 0
-	for _, j := range keep {
-		gg[i] = gg[j]
-		i++
+	for j := range gg {
+		if !drop[j] {
+			gg[i] = gg[j]
+			i++
+		}
 	}
-	gg = gg[:len(keep)]
 
-	return gg
+	return gg[:i]
 }
 
 // Filter represents a filtering function for a Feature. It should return a
